@@ -311,7 +311,7 @@ def flat_cache_key(ctx, rule="DEP-cache-key"):
 # ====================================================================== C07
 
 
-def eval_handle_modular_vmap(ev, ret, batched, size, kind, nconst, site_shape=(2,)):
+def eval_handle_modular_vmap(ev, ret, batched, size, kind, nconst, site_shape=(2,), axis_pos=0):
     """Value of VmapBatchHandler._handle_modular_vmap on model operands (dummy, <nconst keyless constants>, leaf0, leaf1) flattened from the
     site's own call f(leaf0, leaf1) / f(leaf0, kw=leaf1): (returned value, static_dim_length calls, re-bound sampler calls)."""
     from ..absint import Model, Opq, TreeDef
@@ -319,7 +319,7 @@ def eval_handle_modular_vmap(ev, ret, batched, size, kind, nconst, site_shape=(2
     m = Model(evaluator=ev)
     consts = ("keyless-const",) * nconst
     m.bind(VA, ("dummy",) + consts + ("leaf0", "leaf1"))
-    m.bind(BA, ("dummy-axis",) + (None,) * nconst + (0 if batched else None, None))
+    m.bind(BA, ("dummy-axis",) + (None,) * nconst + (axis_pos if batched else None, None))
     pd = {"axis_size": 5 if size else None, "ctx": "modular_vmap", "in_tree": TreeDef(kind), "num_consts": nconst, "yes_kwargs": kind == "kwargs"}
     m.bind(PR, pd)
     seen_sdl = []
@@ -568,21 +568,28 @@ def first_leaf_guard(ctx, rule="KIND-first-leaf"):
 
 
 def sample_batch_axes(ctx, rule="DEP-batch-axes"):
-    """A batch rule that declares a fixed output axis must first bring every batched operand to that axis: the positions in
-    batch_axes (not just the size) must flow into a moveaxis-like normalisation or into out_axes."""
-    node, mod = fnode(ctx, PJ + "VmapBatchHandler._handle_modular_vmap")
-    src = unp(node)
-    uses = [n for n in ast.walk(node) if isinstance(n, ast.Name) and n.id == "batch_axes" and isinstance(n.ctx, ast.Load)]
-    normalises = any(w in src for w in ("moveaxis", "swapaxes", "transpose", "bdim_at_front", "batching.moveaxis", "jax.vmap(", "matchaxis"))
-    only_size = all(any(isinstance(c, ast.Call) and unp(c.func) == "static_dim_length" and any(x is u for a in c.args for x in ast.walk(a)) for c in ast.walk(node))
-                    or any(isinstance(a, ast.Assign) and unp(a.targets[0]) == "batch_axes" and any(x is u for x in ast.walk(a.value)) for a in ast.walk(node))
-                    for u in uses)
-    if only_size and not normalises:
+    """A batch rule that declares a fixed output axis must first bring every batched operand to that axis: the *positions* in
+    batch_axes (not just the size they imply) must reach a moveaxis-like normalisation, the re-bound call, or out_axes.  Decided on the finite
+    model of the rule: evaluated with the batched operand's axis at position 0 and at position 1, everything else equal - if the re-bound
+    sampler call, its configuration and the declared output axes are identical, the position is not used."""
+    from ..absint import Unknown
+    ev = mk_ev(ctx)
+    dotted = PJ + "VmapBatchHandler._handle_modular_vmap"
+    s = summarize(ctx, ev, dotted)
+    node, mod = fnode(ctx, dotted)
+    outs = []
+    try:
+        for pos in (0, 1):
+            got, seen_sdl, rebound = eval_handle_modular_vmap(ev, s.ret, True, False, "args", 0, (2,), axis_pos=pos)
+            outs.append((repr(got), repr([(c, a, sorted(k.items())) for c, a, k in rebound])))
+    except Unknown as e:
+        raise AnalysisError(f"{dotted}: cannot evaluate the rule with the batch axis at position {pos}: {e}")
+    if outs[0] == outs[1]:
         ctx.bad(rule, "pjax.VmapBatchHandler._handle_modular_vmap", "batch axis positions unused",
                 "the sampler is re-bound on operands whose batch axis may be anywhere (and whose per-lane ranks may differ) and the result is declared batched on axis 0: "
                 "batch_axes is consulted only for the axis size; input: modular_vmap(lambda m: normal.sample(m, 1.), in_axes=1)(ones((3, N)))", ctx.loc(mod, node))
     else:
-        ctx.ok(rule, "pjax.VmapBatchHandler._handle_modular_vmap")
+        ctx.ok(rule, "pjax.VmapBatchHandler._handle_modular_vmap", "the re-bound call or the declared output axis depends on where the operand's batch axis is")
 
 
 
